@@ -47,8 +47,9 @@ CFG = {
                   "Gen/Conc.lean: statement order of Suspend, Resume clearing `suspended`, Close's test-and-set, and (round 3) the statement skeletons "
                   "of Parser.WaitClose / Close / emit / run's tail, PostEvent / PostEventBlocking and the input goroutine (waitclose_drains, "
                   "input_loop_leaves_on_closed_channel, blocking_post_selects_quit). Assumed, not guaranteed by the code: Resume only after the "
-                  "application's Suspend returned and not after Close. lock_order is computed on a flattened per-function event list (a return in "
-                  "a branch resets the held set; callees by simple name). The escape timer (C08) is not a component of "
+                  "application's Suspend returned and not after Close. lock_order (round 3): branch-structured events, callees qualified by receiver type (by the receiver "
+                  "expression's last component: vx/Vx, tw/w, parser/p, m, win), every transitively locking function listed; mutexes are named by the same "
+                  "convention, no type checker is run. The escape timer (C08) is not a component of "
                   "the shutdown LTS (the timer's emit is released by the same drain as the parser's). The spinner's loop is its own component (SpSys, "
                   "Props/C10Spinner: one live goroutine, ticks never block, Stop ends every spinner goroutine, its posts are posts of the queue LTS); "
                   "nothing in Close stops a spinner (the widget's own Start/Stop life cycle).",
